@@ -156,6 +156,22 @@ func crlBehaviours() []crlBehaviour {
 	add(crlBehaviour{name: "advertised-delta-unobtainable", failing: true, hasDelta: true, httpOnly: true, make: func(w *crlWorld, dp int) *crlArtefact {
 		return &crlArtefact{base: pki.ForgeCRL(baseSpec(w, dp, true)), deltaLocMissing: true}
 	}})
+	// advertised delta locations that the fetcher cannot use (only non-http schemes): the bundle must not silently become base-only
+	for _, v := range []struct {
+		n    string
+		locs [][]string
+	}{
+		{"advertised-delta-location-https-only", [][]string{{"uri:https://crl.test/delta"}}},
+		{"advertised-delta-locations-ldap-and-https", [][]string{{"uri:ldap://crl.test/delta"}, {"uri:https://crl.test/delta"}}},
+		{"advertised-delta-location-ftp-in-one-point-with-https", [][]string{{"uri:ftp://crl.test/delta", "uri:https://crl.test/delta"}}},
+	} {
+		v := v
+		add(crlBehaviour{name: v.n, failing: true, hasDelta: true, httpOnly: true, make: func(w *crlWorld, dp int) *crlArtefact {
+			sp := baseSpec(w, dp, false)
+			sp.Freshest = pki.CDPValue(v.locs)
+			return &crlArtefact{base: pki.ForgeCRL(sp), deltaLocMissing: true}
+		}})
+	}
 	return out
 }
 
@@ -220,11 +236,9 @@ func c05Scenarios(tier mc.Tier) []mc.Scenario {
 						if !cs && (fr || ik != "p256-a") {
 							continue // issuer-without-cRLSign is one scenario-level flag, not a full dimension
 						}
-						if tier == mc.Quick && n == 3 && ik != "p256-a" {
-							continue
-						}
+
 						s := &c05Scenario{issuerKey: ik, nDP: n, fetcher: f, freshest: fr, crlSign: cs}
-						s.free = n <= 2 || tier == mc.Thorough
+						s.free = true // full product in both tiers (cheap: choice points exist only for contacted points)
 						bound := 1
 						if s.free {
 							bound = -1
